@@ -74,7 +74,7 @@ def main(argv: list[str]) -> int:
             if d.is_dir() and (d / "patch.diff").exists()]
     ver: dict[tuple[str, str], dict] = {}
     if do_verify:
-        with ThreadPoolExecutor(max_workers=3) as ex:
+        with ThreadPoolExecutor(max_workers=2) as ex:
             for (pid, k), res in zip(jobs, ex.map(lambda j: verify(src, *j), jobs)):
                 ver[(pid, k)] = res
     for pid, k in jobs:
